@@ -6,7 +6,8 @@ MCArgs == { A("ident", <<"a">>), A("unquoted", <<"a", "\\", Q>>), A("unquoted", 
             A("quoted", <<Q, "a", " ", "a", Q>>), A("quoted", <<Q, Q>>), A("quoted", <<Q, "\\", Q, "a", Q>>),
             A("quoted", <<Q, "a", "\\", Q, Q>>), A("quoted", <<Q, "a", Q>>), A("quoted", <<Q, "\\", Q, Q>>),
             A("varref", <<"$", "o", "a", "o">>), A("bracket", <<"[", "[", "a", "]", "]">>), A("bracket", <<"[", "[", Q, "a", Q, "]", "]">>),
-            A("unquoted", <<"\\", Q, "a", "\\", Q>>), A("quoted", <<Q, "e", Q>>) }
+            A("unquoted", <<"\\", Q, "a", "\\", Q>>), A("quoted", <<Q, "e", Q>>),
+            A("quoted", <<Q, "a", "\\", "\\", Q>>), A("quoted", <<Q, "\\", "\\", Q>>) }
 BothKinds == {"set", "option"}
 NoDev == {}
 CurrentDev == {}
